@@ -118,11 +118,36 @@ func template(rt *rapid.T) (Frame, []int) {
 		binary.BigEndian.PutUint16(m[2:], ^codec.Sum1071(m, 0))
 		return Frame{P: codec.EtherIPv4, B: hex.EncodeToString(v4(codec.ProtoICMP, m))}, append(ipv4Fields, 20, 21, 24, 26, 27, 28, 30, 31, 37, 48, 50)
 	case "icmp6-err":
-		inner := codec.BuildIPv6(codec.IPv6Hdr{Src: a6, Dst: b6, NextHeader: codec.ProtoTCP}, codec.BuildTCP(a6, b6, codec.TCPSeg{SrcPort: portListen, DstPort: 50000, Flags: codec.ACK}))
-		n := rapid.IntRange(0, len(inner)).Draw(rt, "quote")
-		body := append([]byte{0, 0, 5, 0}, inner[:n]...)
-		typ := uint8(rapid.SampledFrom([]int{1, 2, 2, 3, 4}).Draw(rt, "type6"))
-		return Frame{P: codec.EtherIPv6, B: hex.EncodeToString(v6(codec.ProtoICMPv6, codec.BuildICMPv6(b6, a6, typ, 0, body)))}, []int{0, 4, 5, 6, 40, 41, 44, 46, 48, 52, 54}
+		// an error message quoting a packet of the live connection, of the UDP socket, or a fragment of one
+		// (quoted next header 44: the fragment header is parsed before the transport header), cut anywhere -
+		// in particular within the first bytes behind the quoted IPv6 header
+		tcpq := codec.BuildTCP(a6, b6, codec.TCPSeg{SrcPort: portListen, DstPort: 50000, Flags: codec.ACK})
+		udpq := codec.BuildUDP(a6, b6, portUDP, 4000, []byte("quoted"), true)
+		nh := rapid.SampledFrom([]int{codec.ProtoTCP, codec.ProtoTCP, codec.ProtoUDP, 44, 44, 44, 0, 60}).Draw(rt, "quoted-next-header")
+		l4 := tcpq
+		switch nh {
+		case codec.ProtoUDP:
+			l4 = udpq
+		case 44:
+			fh := make([]byte, 8)
+			fh[0] = uint8(rapid.SampledFrom([]int{codec.ProtoTCP, codec.ProtoTCP, codec.ProtoUDP, 44}).Draw(rt, "quoted-frag-next"))
+			if fh[0] == codec.ProtoUDP {
+				l4 = udpq
+			}
+			binary.BigEndian.PutUint16(fh[2:], uint16(rapid.SampledFrom([]int{0, 0, 0, 1, 8, 9, 0xfff9}).Draw(rt, "quoted-frag-off")))
+			binary.BigEndian.PutUint32(fh[4:], uint32(rapid.IntRange(0, 2).Draw(rt, "quoted-frag-id")))
+			l4 = append(fh, l4...)
+		}
+		inner := codec.BuildIPv6(codec.IPv6Hdr{Src: a6, Dst: b6, NextHeader: uint8(nh)}, l4)
+		n := rapid.OneOf(rapid.IntRange(0, len(inner)), rapid.IntRange(40, 52), rapid.Just(len(inner))).Draw(rt, "quote")
+		if n > len(inner) {
+			n = len(inner)
+		}
+		mtu := rapid.OneOf(rapid.SampledFrom([]int{0, 1, 39, 40, 41, 60, 61, 72, 1279, 1280, 1500, 65535}), rapid.IntRange(0, 70000)).Draw(rt, "mtu6")
+		body := append([]byte{byte(mtu >> 24), byte(mtu >> 16), byte(mtu >> 8), byte(mtu)}, inner[:n]...)
+		typ := uint8(rapid.SampledFrom([]int{1, 1, 2, 2, 3, 4}).Draw(rt, "type6"))
+		code := uint8(rapid.SampledFrom([]int{0, 0, 1, 3, 4, 4}).Draw(rt, "code6"))
+		return Frame{P: codec.EtherIPv6, B: hex.EncodeToString(v6(codec.ProtoICMPv6, codec.BuildICMPv6(b6, a6, typ, code, body)))}, []int{0, 4, 5, 6, 40, 41, 44, 46, 48, 52, 54, 88, 90, 91}
 	case "ndp":
 		typ := uint8(rapid.SampledFrom([]int{133, 134, 135, 135, 136, 137}).Draw(rt, "ndptype"))
 		body := make([]byte, 4+16)
